@@ -232,7 +232,11 @@ V_Import(e) ==
                       keyOk == IF k.prv THEN q.keydata[1] = 0 /\ ValidScalar32(Drop(q.keydata, 1))
                                ELSE SecShape(q.keydata) /\ SecNorm(e, q.keydata) # <<>>
                       hdrOk == q.depth # 0 \/ (IsZero(q.pfp) /\ IsZero(q.idx))
-                  IN IF ~keyOk THEN "ok"
+                  IN IF ~keyOk THEN (IF Raised(e) THEN "ok"
+                                     \* not a valid payload for this version: refusing is fine; if a wallet comes back all
+                                     \* the same, its type is still the VERSION's, never the other one
+                                     ELSE IF e.res.v.watch_only # ~k.prv THEN "import-key-type-not-from-version"
+                                     ELSE "ok")
                      ELSE IF Raised(e) /\ ~hdrOk THEN "ok"
                      ELSE IF Raised(e) THEN "import-raised-on-valid"
                      ELSE IF e.res.v.net # k.net THEN "import-network-not-from-version"
